@@ -281,6 +281,10 @@ func init() {
 					case x < 7:
 						s.Submit("c", reqRelease(pick(r, res...), pick(r, execs...)))
 					default:
+						if r.Intn(4) == 0 {
+							// a worker that heartbeats its tasks and its locks on one timer: both land in one store batch
+							s.Submit("c", reqHeartbeatTasks(pick(r, procs...)))
+						}
 						s.Submit("c", reqHeartbeatLocks(pick(r, procs...)))
 					}
 				}
@@ -343,6 +347,9 @@ func init() {
 					ptags = map[string]string{"resonate:invoke": "poll://default/w"}
 				case 1:
 					ptags = map[string]string{"a": "b", "resonate:timeout": "true"}
+				case 2:
+					// tags copied from a promise some other schedule fired: the marker tags of THIS schedule still apply
+					ptags = map[string]string{"resonate:schedule": "another-schedule", "resonate:invocation": "false", "a": "b"}
 				}
 				tmpl := pick(r, "{{.id}}.{{.timestamp}}", "x-{{.timestamp}}", "{{.id}}/{{.timestamp}}/{{.id}}", "fixed-"+id)
 				return reqCreateSchedule(id, pick(r, cronFamilies...), tmpl, pick(r, int64(0), 1000, 60000, 1<<40), pick(r, kp("k1"), kp("k2"), nil), ptags, pick(r, "", "data"))
